@@ -106,7 +106,7 @@ def wrapper_line(op, ty, var, cfg=None):
 
 
 def make_tu(cfg, obls):
-    lines = [build.PRELUDE % {'arch': cfg.arch}]
+    lines = [(build.PRELUDE_EMU % {'arch': cfg.arch, 'bytes': cfg.bits // 8}) if cfg.family == 'emu' else (build.PRELUDE % {'arch': cfg.arch})]
     meta = {}
     for (op, ty, var) in obls:
         l, names = wrapper_line(op, ty, var, cfg)
@@ -388,6 +388,11 @@ def run_tu(job):
                 continue
             try:
                 out.append(analyse_wrapper(mod, cfg, fn, o, t, v, names))
+            except AssertionError as e:
+                if cfg.family != 'emu':
+                    raise
+                # emulated architectures: batch_bool is an array of bool, a representation the mask model does not cover
+                out.append({'op': o.name, 'ty': t.name, 'var': v, 'cfg': cfgname, 'status': 'undecided', 'why': 'unsupported on the emulated architecture: %r' % (e,)})
             except Exception as e:
                 out.append({'op': o.name, 'ty': t.name, 'var': v, 'cfg': cfgname, 'status': 'broken',
                             'why': 'engine exception: %r\n%s' % (e, traceback.format_exc()[-1500:])})
